@@ -83,3 +83,8 @@ func orderAckOK(s *dstore) (err error) {
 	}
 	return s.tx.Sync()
 }
+
+// EXPECT-LITE fail event-not-found
+func orderNoEvent(s *dstore) error {
+	return s.tx.Sync()
+}
